@@ -136,7 +136,9 @@ Fixpoint zlist_eqb (a b : list Z) : bool :=
   | _, _ => false
   end.
 
-(* if ballot not in ballots: ballots[ballot] = 0 ; ballots[ballot] += weight *)
+(* pinned: ballots[ballot] = 0 ; += weight.  repaired: the first weight is stored as written, later ones added;
+   in exact arithmetic both are 0 + w (the rounding of 0 + Decimal by the decimal context is not modelled: the
+   repaired code no longer performs that addition) *)
 Fixpoint badd (b : list (list Z * Q)) (r : list Z) (w : Q) : list (list Z * Q) :=
   match b with
   | [] => [(r, Qred (0 + w))]
